@@ -106,7 +106,11 @@ func (canidStream) Gen(r *rand.Rand, tier string, idx int) []string {
 		case 3:
 			sc = append(sc, sprintf("canid rem %s %d", head, pick(r, -1, 0, n-1, n, r.Intn(n+1))))
 		case 4:
-			sc = append(sc, sprintf("canid get %s %d %d %d %d %d %d", head, r.Intn(2), rnd32(r), r.Intn(9), r.Intn(4), rnd32(r), rnd32(r)))
+			if r.Intn(3) == 0 {
+				head = "-1" // the default builder of the bus (and the routes by which a bus comes back to it)
+			}
+			att := []int{0, 1, 2, 3, 4, 5, 6, 7, 8, 2, 2, 2}[r.Intn(12)]
+			sc = append(sc, sprintf("canid get %s %d %d %d %d %d %d", head, r.Intn(2), rnd32(r), att, r.Intn(4), rnd32(r), rnd32(r)))
 		}
 	}
 	return sc
@@ -358,8 +362,37 @@ func (e *canidExec) Do(line string) string {
 					return "err " + err.Error()
 				}
 			}
+			// the builder of the bus is the LAST one it was given, by whatever route it got there:
+			// directly / after another builder / after the bus's own default builder was edited in
+			// place / given twice, with the default in between (nil = back to a fresh default builder)
+			route := (p + m + n) % 4
+			if def && route == 1 {
+				route = 2 // the default builder is the one that can be edited in place
+			}
+			switch route {
+			case 1:
+				junk := acmelib.NewCANIDBuilder("junk")
+				junk.UseMessageID(3, 5).UseNodeID(0, 3)
+				bus.SetCANIDBuilder(junk)
+			case 2:
+				if cur := bus.CANIDBuilder(); cur != nil {
+					if len(cur.Operations()) > 0 {
+						_ = cur.RemoveOperation(len(cur.Operations()) - 1)
+					}
+					cur.UseMessageID(20, 9)
+				}
+			case 3:
+				if def {
+					bus.SetCANIDBuilder(nil)
+				} else {
+					bus.SetCANIDBuilder(b)
+				}
+				bus.SetCANIDBuilder(nil)
+			}
 			if !def {
 				bus.SetCANIDBuilder(b)
+			} else if (p+m+n)%4 != 0 {
+				bus.SetCANIDBuilder(nil)
 			}
 			switch att { // detach again: the message is no longer attached to a bus
 			case 3:
